@@ -197,3 +197,68 @@ func VerifC20ReqResp() {
 	}
 	vCover("c20-reqresp-end")
 }
+
+// VerifC20Tokens: the per-connection limits on parallel publishes and subscribes are returned
+// by every completed request, so a connection that waits for each response before sending
+// the next request is answered for ever: with the limits set to T, T+2 sequential requests of
+// any kind (SUBSCRIBE, UNSUBSCRIBE, QoS 1 PUBLISH, QoS 2 PUBLISH + PUBREL) are all answered
+// and the connection stays open (a leaked slot would end in the token timeout).
+func VerifC20Tokens() {
+	be := newRecBackend()
+	T := vParam("T", 1)
+	be.ClientParallelPublishes = T
+	be.ClientParallelSubscribes = T
+	_, conn := startClient(be, mkConnect("c", true, nil), false)
+	R := T + 2
+	want := 1
+	for i := 0; i < R; i++ {
+		id := packet.ID(10 + i)
+		switch vChoice("kind", 4) {
+		case 0:
+			s := packet.NewSubscribe()
+			s.ID = id
+			s.Subscriptions = []packet.Subscription{{Topic: "t", QOS: 0}}
+			conn.in <- s
+			vQuiesce()
+			want++
+			sa, ok := conn.sentAt(conn.sentCount() - 1).(*packet.Suback)
+			vAssert(conn.sentCount() == want && ok && sa.ID == id, "SUBSCRIBE answered by its SUBACK")
+		case 1:
+			u := packet.NewUnsubscribe()
+			u.ID = id
+			u.Topics = []string{"t"}
+			conn.in <- u
+			vQuiesce()
+			want++
+			ua, ok := conn.sentAt(conn.sentCount() - 1).(*packet.Unsuback)
+			vAssert(conn.sentCount() == want && ok && ua.ID == id, "UNSUBSCRIBE answered by its UNSUBACK")
+		case 2:
+			p := packet.NewPublish()
+			p.Message = packet.Message{Topic: "x", QOS: 1}
+			p.ID = id
+			conn.in <- p
+			vQuiesce()
+			want++
+			pa, ok := conn.sentAt(conn.sentCount() - 1).(*packet.Puback)
+			vAssert(conn.sentCount() == want && ok && pa.ID == id, "QoS 1 PUBLISH answered by its PUBACK")
+		case 3:
+			p := packet.NewPublish()
+			p.Message = packet.Message{Topic: "x", QOS: 2}
+			p.ID = id
+			conn.in <- p
+			vQuiesce()
+			want++
+			pr, ok := conn.sentAt(conn.sentCount() - 1).(*packet.Pubrec)
+			vAssert(conn.sentCount() == want && ok && pr.ID == id, "QoS 2 PUBLISH answered by its PUBREC")
+			rel := packet.NewPubrel()
+			rel.ID = id
+			conn.in <- rel
+			vQuiesce()
+			want++
+			pc, ok2 := conn.sentAt(conn.sentCount() - 1).(*packet.Pubcomp)
+			vAssert(conn.sentCount() == want && ok2 && pc.ID == id, "PUBREL answered by its PUBCOMP")
+		}
+		vAssert(!conn.isClosed(), "the connection stays open")
+	}
+	vCover("c20-tokens-end")
+}
